@@ -142,15 +142,18 @@ def main():
         v = eval(vsrc)
         rec = {'src': vsrc}
         try:
+            # the questions of the property first, each on a type object nothing has looked into yet (an encoder walking the
+            # type would use up anything that can only be traversed once)
             t = get_pedal_type_from_value(v)
-            rec['value_enc'] = enc_value(v)
-            rec['type_enc'] = enc_type(t)
-            rec['norm_enc'] = enc_type(normalize_type(type(v)).as_type())
             rec['reflexive'] = [bool(is_subtype(t, t)) for _ in range(3)]
-            t2 = get_pedal_type_from_value(v)
-            rec['stable'] = bool(is_subtype(t, t2)) and bool(is_subtype(t2, t)) and bool(is_subtype(t, t2))
+            tc = get_pedal_type_from_value(v)
             norm = normalize_type(type(v)).as_type()
-            rec['conforms'] = [bool(is_subtype(t, norm)) for _ in range(2)]
+            rec['conforms'] = [bool(is_subtype(tc, norm)) for _ in range(2)] + [bool(is_subtype(t, norm))]
+            t1, t2 = get_pedal_type_from_value(v), get_pedal_type_from_value(v)
+            rec['stable'] = bool(is_subtype(t1, t2)) and bool(is_subtype(t2, t1)) and bool(is_subtype(t1, t2))
+            rec['value_enc'] = enc_value(v)
+            rec['type_enc'] = enc_type(get_pedal_type_from_value(v))
+            rec['norm_enc'] = enc_type(normalize_type(type(v)).as_type())
             rec['type'] = str(t)[:80]
         except Exception as e:
             rec['raised'] = type(e).__name__ + ': ' + str(e)[:100]
